@@ -241,6 +241,10 @@ VisitSet(mem, now, l, inh) ==
 
 ReadGate(m, now, rk) == Gate(<<GEnabled(m, now), GRead(m, now, rk)>>)
 
+\* A parent chain that is ill-formed (loop, missing parent) is an error; the walk may
+\* meet a location that refuses the caller before it notices, and then reports that.
+LoopClasses(mr, now, rk) == {"error"} \cup ({ReadGate(mr[a], now, rk) : a \in DOMAIN mr} \ {"ok"})
+
 \* matching, visible, unscheduled rules of one location
 MatchingRules(m, now, ev) ==
   {i \in Vis(m, now) : IsRuleItem(m[i]) /\ HasWhenPattern(RuleBody(m[i]))
@@ -294,7 +298,7 @@ OpSearchFacts(mr, mw, ro, op) ==
   LET l == op.loc  now == op.now
       vs == VisitSet(mr, now, l, op.inh)
       bad == {ReadGate(mr[a], now, op.rk) : a \in vs.locs} \ {"ok"}
-  IN IF vs.err THEN {Out(mw, ro, Resp("error"))}
+  IN IF vs.err THEN {Out(mw, ro, Resp(c)) : c \in LoopClasses(mr, now, op.rk)}
      ELSE IF bad # {} THEN {Out(mw, ro, Resp(c)) : c \in bad}
      ELSE {Out(mw, ro, [R0 EXCEPT !.found = UNION {FoundIn(mr[a], now, op.val) : a \in vs.locs}])}
 
@@ -401,7 +405,7 @@ OpSearchRules(mr, mw, ro, op) ==
       dupMay == DupIds(mr, now, vs.paths, LAMBDA m : EventRules(m, now))
       oks == {Out(mw, ro, [R0 EXCEPT !.ids = S]) : S \in {T \in SUBSET may : must \subseteq T}}
   IN IF g # "ok" THEN {Out(mw, ro, Resp(g))}
-     ELSE IF vs.err THEN {Out(mw, ro, Resp("error"))}
+     ELSE IF vs.err THEN {Out(mw, ro, Resp(c)) : c \in LoopClasses(mr, now, op.rk)}
      ELSE IF bad # {} THEN {Out(mw, ro, Resp(c)) : c \in bad}
      ELSE IF dupMust # {} THEN {Out(mw, ro, Resp("error"))}
      ELSE IF dupMay # {} THEN oks \cup {Out(mw, ro, Resp("error"))}
